@@ -269,7 +269,20 @@ func (m *model) applyDelete(p string, recursive bool) (outcome, string) {
 		return either, "not found"
 	}
 	if n.s.IsDir {
-		kids := m.subtree(p)
+		// only what can be reached from p (an excused left-over below a missing directory is neither
+		// seen nor removed by a delete further up)
+		var kids []string
+		for _, k := range m.subtree(p) {
+			reach := true
+			for a := parentOf(k); a != p && a != "/" && a != ""; a = parentOf(a) {
+				if an := m.nodes[a]; an == nil || !an.s.IsDir {
+					reach = false
+				}
+			}
+			if reach {
+				kids = append(kids, k)
+			}
+		}
 		if len(kids) > 0 && !recursive {
 			return mustFail, "non-empty directory, not recursive"
 		}
